@@ -79,6 +79,15 @@ def section(kind, n, body="ctx", src="git"):
         lines = [d, b"index 1111111..2222222 160000", b"--- a/" + f, b"+++ b/" + f,
                  b"@@ -1 +1 @@"] + bl
         info.update(hunk_lines=bl, event="submodule")
+    elif kind == "submodule_log":
+        # diff.submodule=log / --submodule=log: no `diff --git` line at all
+        lines = [b"Submodule " + f + b" 1111111..2222222:", b"  > commit subject one", b"  > second"]
+        info.update(event="submodule", has_hunk=False, hunk_lines=[])
+    elif kind == "bigline":
+        # a hunk far down a big file: line numbers need more digits than the next section's
+        hh2 = b"@@ -123456,%d +123456,%d @@ fn deep()" % (sum(1 for l in bl if l[:1] in b" -"),
+                                                         sum(1 for l in bl if l[:1] in b" +"))
+        lines = [d, b"index 1111111..2222222 100644", b"--- a/" + f, b"+++ b/" + f, hh2] + bl
     elif kind == "empty":
         lines = [d, b"new file mode 100644", b"index 0000000..e69de29"]
         info.update(event="added", old=b"/dev/null", has_hunk=False, hunk_lines=[])
@@ -97,7 +106,7 @@ def section(kind, n, body="ctx", src="git"):
 
 
 SECTION_KINDS = ["modified", "added", "deleted", "rename", "rename_change", "copy", "mode",
-                 "mode_change", "binary", "submodule", "empty", "combined"]
+                 "mode_change", "binary", "submodule", "empty", "combined", "submodule_log", "bigline"]
 
 COMMIT_BLOCK = [b"commit " + H40A, b"Author: A U Thor <a@example.com>",
                 b"Date:   Thu Jan 1 00:00:00 2020 +0000", b"", b"    subject line", b""]
